@@ -188,6 +188,19 @@ def eps_last(epsimin):
     return last
 
 
+def kkt_residual(a, ret, el):
+    """optimality conditions of  min f0(x) + a0 z + sum(c y + d y^2/2)  s.t. f_i(x) - a_i z - y_i <= b_i, alfa <= x <= beta, y, z >= 0  with
+    f_i(x) = sum_j p_ij/(upp_j - x_j) + q_ij/(x_j - low_j); complementarity products relaxed to the barrier parameter el"""
+    xr, y, z, lam, xsi, eta, mu, zet, s = ret
+    z, zet = float(z), float(zet)
+    P, Q = a['P'], a['Q']
+    U, L = 1 / (a['upp'] - xr), 1 / (xr - a['low'])
+    dfdx = P * U ** 2 - Q * L ** 2
+    fval = P[1:] @ U + Q[1:] @ L - a['b']
+    return np.concatenate([dfdx[0] + lam @ dfdx[1:] - xsi + eta, a['c'] + a['d'] * y - lam - mu, [a['a0'] - a['a'] @ lam - zet], fval - a['a'] * z - y + s,
+                           xsi * (xr - a['alfa']) - el, eta * (a['beta'] - xr) - el, mu * y - el, [zet * z - el], lam * s - el])
+
+
 # ---------------------------------------------------------------- audit: every clause of C10 on one recorded run
 def audit(spec, tr, conv=None):
     """returns a list of (clause, witness) for every violated clause; empty list = run satisfies C10"""
@@ -242,7 +255,9 @@ def audit(spec, tr, conv=None):
         x = xs[k]
         wit = dict(iteration=k)
         chk(a['x0'] is not None and np.array_equal(a['x0'], x), 'subproblem is set up at the current design (concatenation order of the variable signals)', x0=a['x0'], x=x, **wit)
-        if k + 1 < len(xs):
+        if 'first' in tr and k + 1 == tr['first'][0] and k + 1 < len(xs):
+            chk(np.array_equal(xs[k], xs[k + 1]), 'a second response() resumes from the design held by the variable signals', design=xs[k], next_design=xs[k + 1], **wit)
+        elif k + 1 < len(xs):
             chk(np.array_equal(call['ret'][0], xs[k + 1]), 'subproblem solution is written back to the right signals', ret=call['ret'][0], next_design=xs[k + 1], **wit)
         low, upp, alfa, beta, P, Q = (a[q] for q in ('low', 'upp', 'alfa', 'beta', 'P', 'Q'))
         if not chk(low.shape == (n,) and upp.shape == (n,) and alfa.shape == (n,) and beta.shape == (n,) and P.shape == (m + 1, n) and Q.shape == (m + 1, n) and a['b'].shape == (m,),
@@ -291,11 +306,7 @@ def audit(spec, tr, conv=None):
             continue
         chk(np.all(xr > alfa) and np.all(xr < beta), 'subproblem solution strictly inside the admissible interval', x=xr, alfa=alfa, beta=beta, **wit)
         chk(all(np.all(v > 0) for v in (y, lam, xsi, eta, mu, s)) and z > 0 and zet > 0, 'slacks and multipliers of the subproblem solution are positive', **wit)
-        U, L = 1 / (upp - xr), 1 / (xr - low)
-        dfdx = P * U ** 2 - Q * L ** 2
-        fval = P[1:] @ U + Q[1:] @ L - a['b']
-        res = np.concatenate([dfdx[0] + lam @ dfdx[1:] - xsi + eta, a['c'] + a['d'] * y - lam - mu, [a['a0'] - a['a'] @ lam - zet], fval - a['a'] * z - y + s,
-                              xsi * (xr - alfa) - el, eta * (beta - xr) - el, mu * y - el, [zet * z - el], lam * s - el])
+        res = kkt_residual(a, call['ret'], el)
         chk(np.max(np.abs(res)) <= el, 'subproblem solution satisfies the (barrier-relaxed) optimality conditions to the requested accuracy',
             max_residual=float(np.max(np.abs(res))), allowed=el, solver_message=call['msg'], **wit)
     # ---- convergence on a convex problem with known optimum
